@@ -1170,3 +1170,8 @@ CASES += [
          new="""                let index = nodes.len();
                 nodes.push(new_node);"""),
 ]
+
+CASES += [
+    dict(name="mp-count-modulus-too-small", file="bin/weighted_model_count.rs", rule="MP", props=["C19"], expect="count-modulus",
+         rename=[("U64_LARGEST", "U32_SMALL")]),
+]
